@@ -87,7 +87,7 @@ harness!(bit_array_16, 4, |t| { bit_array::<16>(t) });
 harness!(bit_array_24, 5, |t| { bit_array::<24>(t) });
 
 /// push_word writes the low `bits` bits, little-endian, at any current alignment.
-harness!(push_word_roundtrip, 12, |t| {
+harness!(push_word_roundtrip, 13, |t| {
     let mut t = Tape::new(t);
     let pre = (t.u8() % 8) as usize; // bits already in the builder
     let w = (t.u8() % 33) as usize;  // width 0..32
@@ -100,17 +100,24 @@ harness!(push_word_roundtrip, 12, |t| {
     }
     b.push_word(word, w);
     assert!(b.len() == pre + w, "builder length after push_word");
+    // a single bit pushed after the word lands right behind it (also when the word ended on a
+    // byte boundary)
+    let tail_bit = t.bool();
+    b.push(tail_bit);
+    assert!(b.len() == pre + w + 1, "builder length after a following push");
     let bytes = b.seal();
     let ba = BitArray::new(&bytes);
     if w > 0 {
         assert!(ba.load(pre, w) == Some(word), "load reads back what push_word wrote");
     }
+    assert!(ba.get(pre + w) == Some(tail_bit), "a bit pushed after push_word is stored right behind the word");
     let mut i = 0;
     while i < pre {
         assert!(ba.get(i) == Some(i % 2 == 0), "earlier bits untouched");
         i += 1;
     }
     vcover!(pre == 7 && w == 32, "maximally unaligned 32-bit word");
+    vcover!((pre + w) % 8 == 0 && w > 0, "word ends exactly on a byte boundary");
     core::mem::forget(bytes);
 });
 
@@ -144,6 +151,7 @@ fn reference_bv<const L: usize>(t: &[u8]) {
         i += 1;
     }
     assert!(bv.access(x) == if x < L { Some(bits[x]) } else { None }, "access");
+    assert!(bv.access_rank(x) == if x < L { Some((bits[x], ones_before)) } else { None }, "access_rank = (access, rank), None past the last bit");
     assert!(bv.rank(x) == if x <= L { Some(ones_before) } else { None }, "rank(x) = ones in [0, x)");
     assert!(bv.rank0(x) == if x <= L { Some(x - ones_before) } else { None }, "rank0(x) = zeros in [0, x)");
     // select(k): position just past the k-th one (select(0) == 0)
